@@ -43,6 +43,6 @@ theorem resolveProofs_inline (W : World) (vs : List View) :
   unfold resolveProofs
   induction vs with
   | nil => rfl
-  | cons v vs ih => simp [List.filterMap_cons, ih]
+  | cons v vs ih => simp [ih]
 
 end V
